@@ -235,6 +235,73 @@ theorem C09_decode_encode (L : Layout) (r : Row) (h : RowWF L r) : decodeRow L (
   cases r
   simp [hb]
 
+/-- the six scalar columns of the documented row sit right after the two one-hots -/
+theorem encodeRow_cell (L : Layout) (r : Row) (k : Nat) (hk : k < 6) :
+    (encodeRow L r).getD (L.b0 + L.b1 + k) 0 =
+      ([bi r.comp, bi r.reach, bi r.disc, r.value, r.dvalue, (r.access : Int)] : List Int).getD k 0 := by
+  have l1 : (onehot L.b0 r.addr.1).length = L.b0 := onehot_length _ _
+  have l2 : (onehot L.b1 r.addr.2).length = L.b1 := onehot_length _ _
+  have e : encodeRow L r =
+      onehot L.b0 r.addr.1 ++ onehot L.b1 r.addr.2 ++
+      [bi r.comp, bi r.reach, bi r.disc, r.value, r.dvalue, (r.access : Int)] ++
+      r.os.map bi ++ r.svc.map bi ++ r.proc.map bi := rfl
+  rw [e]
+  simp only [List.getD_eq_getElem?_getD, List.append_assoc]
+  rw [List.getElem?_append_right (by rw [l1]; omega), l1,
+      List.getElem?_append_right (by rw [l2]; omega), l2,
+      List.getElem?_append_left (by simp; omega)]
+  congr 2; omega
+
+/-- the five slices of the documented row are its five blocks -/
+theorem encodeRow_slices (L : Layout) (r : Row) (h : RowFits L r) :
+    slice (encodeRow L r) 0 L.hostIdx = onehot L.b0 r.addr.1 ∧
+    slice (encodeRow L r) L.hostIdx L.compIdx = onehot L.b1 r.addr.2 ∧
+    slice (encodeRow L r) L.osStart L.svcStart = r.os.map bi ∧
+    slice (encodeRow L r) L.svcStart L.procStart = r.svc.map bi ∧
+    slice (encodeRow L r) L.procStart L.stateSize = r.proc.map bi := by
+  obtain ⟨ho, hv, hp⟩ := h
+  have l1 : (onehot L.b0 r.addr.1).length = L.b0 := onehot_length _ _
+  have l2 : (onehot L.b1 r.addr.2).length = L.b1 := onehot_length _ _
+  have e : encodeRow L r =
+      onehot L.b0 r.addr.1 ++ onehot L.b1 r.addr.2 ++
+      [bi r.comp, bi r.reach, bi r.disc, r.value, r.dvalue, (r.access : Int)] ++
+      r.os.map bi ++ r.svc.map bi ++ r.proc.map bi := rfl
+  refine ⟨?_, ?_, ?_, ?_, ?_⟩
+  · rw [e]; simp only [slice, Layout.hostIdx, List.drop_zero, Nat.sub_zero, List.append_assoc]
+    rw [List.take_append_of_le_length (by rw [l1]; omega), List.take_of_length_le (by rw [l1]; omega)]
+  · have := slice_append_mid (onehot L.b0 r.addr.1) (onehot L.b1 r.addr.2)
+      ([bi r.comp, bi r.reach, bi r.disc, r.value, r.dvalue, (r.access : Int)] ++
+        r.os.map bi ++ r.svc.map bi ++ r.proc.map bi) L.hostIdx L.compIdx
+      (by simp [Layout.hostIdx, l1] <;> omega) (by simp [Layout.compIdx, Layout.hostIdx, l1, l2] <;> omega)
+    rw [← this, e]; simp
+  · have := slice_append_mid (onehot L.b0 r.addr.1 ++ onehot L.b1 r.addr.2 ++
+        [bi r.comp, bi r.reach, bi r.disc, r.value, r.dvalue, (r.access : Int)]) (r.os.map bi)
+      (r.svc.map bi ++ r.proc.map bi) L.osStart L.svcStart
+      (by simp [Layout.osStart, Layout.accessIdx, Layout.dvalueIdx, Layout.valueIdx, Layout.discIdx,
+            Layout.reachIdx, Layout.compIdx, Layout.hostIdx, l1, l2] <;> omega)
+      (by simp [Layout.svcStart, Layout.osStart, Layout.accessIdx, Layout.dvalueIdx, Layout.valueIdx,
+            Layout.discIdx, Layout.reachIdx, Layout.compIdx, Layout.hostIdx, l1, l2, ho] <;> omega)
+    rw [← this, e]; simp
+  · have := slice_append_mid (onehot L.b0 r.addr.1 ++ onehot L.b1 r.addr.2 ++
+        [bi r.comp, bi r.reach, bi r.disc, r.value, r.dvalue, (r.access : Int)] ++ r.os.map bi)
+      (r.svc.map bi) (r.proc.map bi) L.svcStart L.procStart
+      (by simp [Layout.svcStart, Layout.osStart, Layout.accessIdx, Layout.dvalueIdx, Layout.valueIdx,
+            Layout.discIdx, Layout.reachIdx, Layout.compIdx, Layout.hostIdx, l1, l2, ho] <;> omega)
+      (by simp [Layout.procStart, Layout.svcStart, Layout.osStart, Layout.accessIdx, Layout.dvalueIdx,
+            Layout.valueIdx, Layout.discIdx, Layout.reachIdx, Layout.compIdx, Layout.hostIdx, l1, l2,
+            ho, hv] <;> omega)
+    rw [← this, e]
+  · have := slice_append_mid (onehot L.b0 r.addr.1 ++ onehot L.b1 r.addr.2 ++
+        [bi r.comp, bi r.reach, bi r.disc, r.value, r.dvalue, (r.access : Int)] ++ r.os.map bi
+        ++ r.svc.map bi) (r.proc.map bi) [] L.procStart L.stateSize
+      (by simp [Layout.procStart, Layout.svcStart, Layout.osStart, Layout.accessIdx, Layout.dvalueIdx,
+            Layout.valueIdx, Layout.discIdx, Layout.reachIdx, Layout.compIdx, Layout.hostIdx, l1, l2,
+            ho, hv] <;> omega)
+      (by simp [Layout.stateSize, Layout.procStart, Layout.svcStart, Layout.osStart, Layout.accessIdx,
+            Layout.dvalueIdx, Layout.valueIdx, Layout.discIdx, Layout.reachIdx, Layout.compIdx,
+            Layout.hostIdx, l1, l2, ho, hv, hp] <;> omega)
+    rw [← this, e]; simp
+
 /-- C09: decoding the initial state (written through the index arithmetic) reproduces every host
 definition of the scenario, with the reset flags -/
 theorem C09_init_decodes (sc : Scenario) (h : ∀ r ∈ sc.init, RowWF sc.layout r) :
